@@ -12,6 +12,7 @@ from .common import EXIT_HARNESS, EXIT_OK, EXIT_VIOLATION
 # property -> (kind, module)
 REGISTRY = {
     "C01": ("A", "vf.harness.C01"),
+    "C04": ("A", "vf.harness.C04"),
 }
 
 LEVEL = {}
